@@ -962,4 +962,50 @@ theorem plain_of_div {f g : Fld} (h : div f = .ok g) : Plain g := by
             · rename_i c hc
               exact diffDim_plain (getComp_plain hc) hy
 
+theorem getComp_shape {f g : Fld} {l : String} (h : getComp f l = .ok g) : g.data.shape = f.data.shape := by
+  cases hk : f.vdimIndex l with
+  | none => simp only [getComp, hk] at h; cases h
+  | some k => exact (getComp_ok hk h).2.2.2.2.2.2.1
+
+theorem curlComp_shape {f t : Fld} {d1 e1 d2 e2 : String} (h : curlComp f d1 e1 d2 e2 = .ok t) :
+    t.data.shape = f.data.shape := by
+  unfold curlComp compOfDim at h
+  split at h
+  · cases h
+  · rename_i k1 hk1
+    split at h
+    · cases h
+    · rename_i t1 ht1
+      split at h
+      · cases h
+      · split at h
+        · cases h
+        · rw [binop_shape h, diffDim_shape ht1]
+          cases hq : rDimLast f d1 with
+          | none => rw [hq] at hk1; cases hk1
+          | some l => rw [hq] at hk1; exact getComp_shape hk1
+
+theorem curl_shape_len {f g : Fld} (h : curl f = .ok g) :
+    g.data.shape = f.data.shape ∧ ∀ i, (g.data.get i).length = g.nvdim := by
+  unfold curl at h
+  split at h
+  · cases h
+  · split at h
+    · cases h
+    · split at h
+      · cases h
+      · split at h
+        · split at h
+          · cases h
+          · rename_i cx hcx
+            split at h
+            · cases h
+            · split at h
+              · cases h
+              · split at h
+                · cases h
+                · rename_i cxy hcxy
+                  exact ⟨by rw [lshift_shape h, lshift_shape hcxy, curlComp_shape hcx], lshift_len h⟩
+        · cases h
+
 end DFV.C05
